@@ -715,6 +715,44 @@ Example C06_head_choices_admissible :
 Proof. split; [reflexivity|intros; apply res_sim_refl]. Qed.
 Print Assumptions C06_head_choices_admissible.
 
+(* ---- LCP in a session: "its own magic number" is the one it has put on the wire ------------- *)
+
+(* initPPP + up() (fresh session, any random magic r) or installInMemoryState (restored session, checkpointed
+   magic) and then EVERY history of subscriber Configure-Requests (arbitrary bytes, or echoing exactly the
+   Magic-Number option of our last Configure-Request), verbatim Acks, Naks and Rejects with arbitrary bytes:
+   no Configure-Ack ever carries a Magic-Number that our last Configure-Request announced. *)
+Theorem C06_lcp_wire_identity :
+  forall s0 es e acts id' os,
+  (exists r, (r < 4294967296)%N /\ s0 = fst (lsess_step repaired (lsess0 r) SLStart)) \/
+  (exists r saved, (r < 4294967296)%N /\ (saved < 4294967296)%N /\ s0 = lsess_restored r saved) ->
+  (forall x, In x es -> lev_ok x) ->
+  let s := lsess_run repaired s0 es in
+  snd (lsess_step repaired s e) = acts -> In (Sca id' os) acts ->
+  forall o x, In o os -> o_type o = 5%N -> In x (ls_last s) -> o_type x = 5%N -> o_data o <> o_data x.
+Proof. exact l_wire_identity. Qed.
+Print Assumptions C06_lcp_wire_identity.
+
+(* a restored session has announced nothing yet; it compares with the checkpointed magic number, and a
+   request looping that number back is never acknowledged *)
+Theorem C06_lcp_restored_loopback :
+  forall r saved id wire os acts o,
+  saved <> 0%N ->
+  snd (lsess_step repaired (lsess_restored r saved) (SLReq id wire)) = acts -> parse_wire wire = Ok os ->
+  In o os -> o_type o = 5%N -> length (o_data o) = 4%nat -> num32 (o_data o) = saved ->
+  forall id' os', ~ In (Sca id' os') acts.
+Proof. exact l_restored_loopback. Qed.
+Print Assumptions C06_lcp_restored_loopback.
+
+Example C06_lcp_session_nonvacuous :
+  let s1 := fst (lsess_step repaired (lsess0 3735928559) SLStart) in
+  ls_last s1 = [mkopt 1 [5;212]; mkopt 5 [222;173;190;239]; mkopt 3 [194;35;5]]%N /\
+  snd (lsess_step repaired s1 (SLEcho 7)) = [Scn 7 [mkopt 5 [222;173;190;239]%N]] /\
+  snd (lsess_step repaired s1 (SLReq 8 [5;6;1;2;3;4]%N)) = [Sca 8 [mkopt 5 [1;2;3;4]%N]] /\
+  snd (lsess_step repaired (lsess_restored 1 16909060) (SLReq 9 [5;6;1;2;3;4]%N))
+    = [Tld; Scr; Scn 9 [mkopt 5 [1;2;3;4]%N]].
+Proof. vm_compute. repeat split. Qed.
+Print Assumptions C06_lcp_session_nonvacuous.
+
 (* ---- wire format ---------------------------------------------------------------------------- *)
 
 (* ParseOptions terminates within len(data) iterations and never indexes out of range *)
